@@ -2,6 +2,7 @@ import Driver.Proto
 import ScrapliModel.Failed
 import ScrapliModel.FailedText
 import ScrapliModel.FailedFault
+import ScrapliModel.FileLines
 import ScrapliModel.Generated.Platforms
 /-!
 Line protocol for C13.
@@ -184,6 +185,11 @@ end C13
 `stop` field is the old spelling of a trailing `t` token -/
 def handleC13 : List String → String
   | ["platlist"] => C13.platList
+  -- `c13 f.lines <file content>` → `<every line fits> <lines util.LoadFileLines returns>`
+  | ["f.lines", h] =>
+    match fromHex h with
+    | some b => s!"{b2s (decide (Scrapli.FileLines.AllFit b))} {showHexList (Scrapli.FileLines.fileLines b)}"
+    | none => "bad-op"
   | api :: drv :: op :: stop :: cmds :: outs :: _ =>
     match hexList drv, C13.parseOpts op, hexList cmds, C13.hexListOpt outs with
     | some drv, some opts, some cmds, some outsE =>
